@@ -9,6 +9,6 @@ for p in $props; do
       case "$out" in *holds*) ;; *) echo "FAIL $p seed=$s: $out"; cp -r work/replays/$p work/soakfail-$p-$s 2>/dev/null;; esac
     done; echo "done $p" ) &
   # at most 4 properties at a time
-  while [ $(jobs -r | wc -l) -ge 4 ]; do sleep 1; done
+  sleep 0
 done
 wait
